@@ -11,6 +11,9 @@ KILL = ("std::cmp::min", "std::cmp::Ord::min", "std::cmp::Ord::clamp")
 BOUNDED_LAST = ("len", "count", "capacity", "is_empty", "remaining", "size_hint")
 
 
+CONTAINER_WRITES = ("push", "push_back", "push_front", "insert", "extend", "append", "or_insert", "or_insert_with", "extend_from_slice", "resize", "fill")
+
+
 def _is_int_ty(ty):
     t = ty.replace("&", "").replace("mut ", "").strip()
     return t in ("usize", "u64", "u32", "u16", "u8", "i64", "i32", "isize", "i16", "i8", "u128", "i128")
@@ -51,6 +54,27 @@ class Taint:
                     if l is not None and l in self.local[par.path]:
                         return True
         return False
+
+    def _ref_bases(self, b, l, depth=0):
+        """locals a temporary `&mut` local points into (`_t = &mut base...`)"""
+        out = {l}
+        if depth > 4:
+            return out
+        for blk in b.blocks:
+            for s in blk.stmts:
+                if s["k"] == "assign" and s["place"]["l"] == l and not s["place"]["p"]:
+                    rv = s["rv"]
+                    src = rv.get("p") if rv["k"] == "ref" else ((rv.get("a") or {}).get("mv") or (rv.get("a") or {}).get("cp")) if rv["k"] == "use" else None
+                    if src is not None:
+                        out |= self._ref_bases(b, src["l"], depth + 1)
+            t = blk.term
+            if t["k"] == "call" and t["dest"]["l"] == l and not t["dest"]["p"]:
+                last = (callee_of(t) or callee_decl(t) or "").rsplit("::", 1)[-1]
+                if last in ("deref_mut", "as_mut", "entry", "or_insert_with", "or_insert", "or_default", "get_mut", "borrow_mut") and t["args"]:
+                    src = t["args"][0].get("mv") or t["args"][0].get("cp")
+                    if src is not None:
+                        out |= self._ref_bases(b, src["l"], depth + 1)
+        return out
 
     def _body_round(self, b):
         tl = self.local[b.path]
@@ -118,6 +142,14 @@ class Taint:
                     res_t = False
                 else:
                     res_t = any(args_t)
+                    # storing a tainted value into a collection taints the collection (push / insert / extend / entry..)
+                    atys = t.get("atys") or []
+                    if len(args_t) >= 2 and any(args_t[1:]) and atys and atys[0].startswith("&mut") and (c or d).rsplit("::", 1)[-1] in CONTAINER_WRITES:
+                        rpl = t["args"][0].get("mv") or t["args"][0].get("cp")
+                        if rpl is not None:
+                            for base in self._ref_bases(b, rpl["l"]):
+                                if base not in tl and base not in self.blocked[b.path]:
+                                    tl.add(base); changed = True
                 if res_t and dest not in tl and dest not in self.blocked[b.path]:
                     tl.add(dest); changed = True
         # return taint
